@@ -168,6 +168,7 @@ PROCS = {
     'central_is_server_indicate': (5, 0, lambda w: [w.devs[0].indicate_subscribers(w.ch0)]),
     'coc_connect': (0, 0, lambda w: [w.conn.create_l2cap_channel(l2cap.LeCreditBasedChannelSpec(psm=0x81))]),
     'coc_connect_refused': (0, 0, lambda w: [w.conn.create_l2cap_channel(l2cap.LeCreditBasedChannelSpec(psm=0x83))]),
+    'ecoc_connect': (0, 0, lambda w: [w.devs[0].l2cap_channel_manager.create_enhanced_credit_based_channels(w.conn, l2cap.LeCreditBasedChannelSpec(psm=0x81), 2)]),
     'coc_disconnect': (3, 0, lambda w: [w.channel.disconnect()]),
     'coc_write_drain': (3, 0, lambda w: [_write_drain(w)]),
     'rssi': (0, 0, lambda w: [w.conn.get_rssi()]),
@@ -177,7 +178,7 @@ PROCS = {
 }
 # an upper bound of the undisturbed length of each procedure in loop callbacks (checked: a longer procedure is reported)
 KMAX = {'discover_all': 96, 'read': 14, 'write': 14, 'write_cmd_burst': 24, 'two_requests': 26, 'subscribe': 22, 'indicate': 16, 'notify': 8, 'mtu': 12, 'pair': 76,
-        'peer_pair': 76, 'paired_idle': 1, 'pair_passkey_prompt_open': 40, 'central_is_server_idle': 1, 'central_is_server_indicate': 16, 'coc_connect': 12, 'coc_connect_refused': 12, 'coc_disconnect': 12, 'coc_write_drain': 130, 'rssi': 6, 'two_hci_commands': 10, 'conn_update': 6, 'encrypt_without_key': 4}
+        'peer_pair': 76, 'paired_idle': 1, 'pair_passkey_prompt_open': 40, 'central_is_server_idle': 1, 'central_is_server_indicate': 16, 'coc_connect': 12, 'coc_connect_refused': 12, 'ecoc_connect': 12, 'coc_disconnect': 12, 'coc_write_drain': 130, 'rssi': 6, 'two_hci_commands': 10, 'conn_update': 6, 'encrypt_without_key': 4}
 CUTS = ['local-disconnect', 'peer-disconnect', 'link-loss', 'transport-lost']
 
 
@@ -281,7 +282,7 @@ def _canary_client_waiter_kept():
          grid={'proc': list(PROCS), 'cutter': [0, 1, 2, 3]},
          canaries=[('data-queue-never-flushed', _canary_queue_not_flushed), ('connecting-coc-not-aborted', _canary_coc_connecting_not_aborted),
                    ('smp-session-never-removed', _canary_session_kept)],
-         bounds='23 procedures (incl. the central acting as GATT server, and a pairing whose passkey prompt stays open; GATT discover/read/write/subscribe/indicate/notify/MTU, pairing from either side, LE CoC connect/refused/disconnect/drain, RSSI, parameter update, encrypt) x 4 cuts (local disconnect, peer disconnect, link loss, transport loss) x every callback boundary k of the procedure: all awaited calls end; connection tables of host, device and controller, GATT server registries, SMP sessions, L2CAP channel and request tables, ACL queue are empty')
+         bounds='24 procedures (incl. the central acting as GATT server, and a pairing whose passkey prompt stays open; GATT discover/read/write/subscribe/indicate/notify/MTU, pairing from either side, LE CoC connect/refused/disconnect/drain, RSSI, parameter update, encrypt) x 4 cuts (local disconnect, peer disconnect, link loss, transport loss) x every callback boundary k of the procedure: all awaited calls end; connection tables of host, device and controller, GATT server registries, SMP sessions, L2CAP channel and request tables, ACL queue are empty')
 def system_cut(k: int, proc: str, cutter: int) -> bool:
     k = C(k, 0, 130)
     if k > KMAX[proc]:
